@@ -188,6 +188,11 @@ def judge_text(sh, backend, top, what, src, case, mech_fn, extra_steps=None, ncy
     leafs = [v for v in byp[p_].vars if v != n_ and de(v).startswith(de(n_) + "__")]
     if leafs and any(n_ not in rs for v in leafs for rs in dr["driver_reads"].get((p_, v), [])):
       W("read-or-output-variable-without-driver", variables=[(p_, n_, list(el_))], all_dual_form=True, element_level=True, text=text[-3000:]); ok = False; break
+    # ... and the mirror image: an element of a LEAF array X__f is read although no driver covers it, while the packed form X is
+    # driven on its own (a constant struct / a whole-struct copy tied to X[i][j])
+    packed = [v for v in byp[p_].vars if v != n_ and de(n_).startswith(de(v) + "__")]
+    if packed and any(n_ not in rs for v in packed for rs in dr["driver_reads"].get((p_, v), [])):
+      W("read-or-output-variable-without-driver", variables=[(p_, n_, list(el_))], all_dual_form=True, element_level=True, leaf_side=True, text=text[-3000:]); ok = False; break
   if not ok:
     return False
   try:
